@@ -13,6 +13,22 @@ import sys
 import traceback
 
 
+def generic_replay(mod, rep):
+    """Checks are deterministic functions of (tree, tier, seed): re-run the check with the recorded tier and seed and
+    report whether the recorded violation key occurs again on the current tree."""
+    from harness import report
+
+    tier, seed = rep.get("tier", "quick"), int(rep.get("seed", 0))
+    print(f"replaying {rep.get('key')} by re-running the check with tier={tier} seed={seed}")
+    mod.run(tier, seed)
+    again = rep.get("key") in report.LAST["keys"] or rep.get("key") in report.LAST["known"]
+    if again:
+        print(f"VIOLATION property={rep.get('property')} replay=<given>  (the recorded violation occurs again)")
+        return 1
+    print("the recorded violation does not occur on the current tree")
+    return 0
+
+
 def main():
     ap = argparse.ArgumentParser()
     ap.add_argument("pid")
@@ -26,13 +42,33 @@ def main():
         if args.replay:
             with open(args.replay) as f:
                 rep = json.load(f)
-            rc = mod.replay(rep)
+            if hasattr(mod, "replay_exact"):
+                rc = mod.replay_exact(rep)
+            elif hasattr(mod, "replay"):
+                rc = mod.replay(rep)
+            else:
+                rc = generic_replay(mod, rep)
         elif args.selftest:
             rc = mod.selftest(seed)
         else:
             rc = mod.run(args.tier, seed)
-    except Exception:  # machinery failure
+    except Exception as exc:
         traceback.print_exc()
+        # an exception raised INSIDE the library under test on an input the specification allows is a verdict about
+        # the library (it crashed where the property promises a result), not a failure of the machinery
+        tb = traceback.extract_tb(exc.__traceback__)
+        inner = tb[-1] if tb else None
+        if inner is not None and "/probdiffeq/" in inner.filename.replace("\\", "/") and "/verif/" not in inner.filename:
+            from harness.report import Report
+
+            rep = Report(args.pid, args.tier, seed)
+            rep.rule = "the check was aborted by an exception raised inside the library under test"
+            rep.evaluations, rep.states, rep.transitions = 1, 1, 1
+            rep.distinct = {"exception", "abort"}
+            rep.violation(f"impl:exception:{os.path.basename(inner.filename)}:{inner.name}",
+                          f"{type(exc).__name__}: {str(exc)[:300]} (raised in {inner.filename}:{inner.lineno})",
+                          {"traceback": traceback.format_exc()[-3000:]})
+            sys.exit(rep.finish())
         print(f"MACHINERY-FAILURE property={args.pid}")
         sys.exit(2)
     sys.exit(rc)
